@@ -43,3 +43,6 @@ pub(crate) enum VariableDeclOrInterpolation {
     VariableDecl(AstVariableDecl),
     Interpolation(Interpolation),
 }
+
+#[cfg(feature = "verif-hooks")]
+pub(crate) use value::ValueParser;
